@@ -25,6 +25,7 @@ func runC02(c *fw.Ctx) {
 	r21(c)
 	r22(c)
 	r23(c)
+	comparableBothDirections(c, "R2.4")
 }
 
 type opTables struct {
